@@ -412,6 +412,15 @@ def _make_alias_contract(eng):
     return h_make_alias(eng)
 
 
+def h_eliminated_states_leave_no_orphan_derivative(eng):
+    """The eliminable-variable loop with the real extract_assignment and get_derivative on chains of states and algebraic variables
+    in every order: whatever the recorded replacement values mention is a variable the model keeps or one that is itself recorded
+    for substitution -- no derivative symbol of an eliminated variable is left belonging to no variable list.  (C14's harness of
+    the loop, whose obligation `elimder.recorded_values_mention_only_variables_of_the_model` is the self-containedness of C15.)"""
+    from contracts import C14
+    C14.h_eliminable_derivatives(eng)
+
+
 HARNESSES = [("Model._simplify_once#eliminate_constant_assignments/counting", h_constant_counting),
              ("Model._simplify_once#eliminable_variable_expression/counting", h_eliminable_counting),
              ("Model._simplify_once#eliminable_variable_expression/counting with the real extract_assignment", h_eliminable_counting_real),
@@ -419,8 +428,9 @@ HARNESSES = [("Model._simplify_once#eliminate_constant_assignments/counting", h_
              ("Model._simplify_once#detect_aliases/counting", h_alias_counting),
              ("Model._simplify_once#replace_* blocks", h_replace_blocks),
              ("Model._simplify_once._make_alias (only algebraic unknowns are eliminated)", _make_alias_contract),
-             ("Model._simplify_once#reduce_affine_expression (one set of state vectors)", _reduce_affine_contract)]
-EXPECTED_COVER = {"count.const", "count.eliminable", "count.eliminable_real", "count.eliminable_chain", "count.alias"} | {"replace." + o for o in REPLACE_OPTIONS} | {"make.done", "affine.done"}
+             ("Model._simplify_once#reduce_affine_expression (one set of state vectors)", _reduce_affine_contract),
+             ("Model._simplify_once#eliminable_variable_expression: no derivative symbol without a variable", h_eliminated_states_leave_no_orphan_derivative)]
+EXPECTED_COVER = {"count.const", "count.eliminable", "count.eliminable_real", "count.eliminable_chain", "count.alias"} | {"replace." + o for o in REPLACE_OPTIONS} | {"make.done", "affine.done", "elimder.done", "elimder.raises"}
 BOUNDED = True
 LEVEL = "proof"
 TRUSTED = ["pyvc VC generator", "z3 5.1.0", "MX node algebra of contracts/mx_algebra.py", "ca.substitute(exprs, vars, values) removes the substituted symbols from exprs (counting harnesses); the chain harness gives ca.substitute / ca.is_equal their meaning on terms (contracts/mx_algebra.py substitute_term / same_term)",
